@@ -174,7 +174,11 @@ def _witness_scale(ctx, out_vals, x_vals, px, target, kind):
         for v in out_vals:
             if isinstance(v, S.Sym):
                 _free_consts(v.e, names)
-        cands = [n for n in names if n in defs]
+        inner = set()
+        for v in x_vals or []:
+            if isinstance(v, S.Sym):
+                _free_consts(v.e, inner)
+        cands = [n for n in names if n in defs and n not in inner]  # the input item may itself be the output of an earlier scaling
         if len(cands) != 1:
             return None, None
         s, r = defs[cands[0]]
@@ -228,7 +232,7 @@ def _scal_cfgs(tier):
     tg = list(TARGETS)
     k = 0
     real_shapes = {"total": ["n3", "n6", "1x4", "2x3", "3x2", "2x1x2", "2x2x2"], "avg": ["n3", "n6", "1x4", "2x3", "3x2", "2x2x2"],
-                   "antenna": ["1x2x2", "2x2x1", "2x2x2", "1x2x3", "2x2x1x2", "1x1x4"], "antenna_budget": ["1x2x2", "2x2x2", "2x3x1"]}
+                   "antenna": ["1x2x2", "2x2x1", "2x2x2", "1x2x3", "2x2x1x2", "1x1x4", "2x2", "2x3"], "antenna_budget": ["1x2x2", "2x2x2", "2x3x1", "2x2"]}
     cplx_shapes = {"total": ["n2", "n3", "1x3", "2x2", "2x1x2"], "avg": ["n3", "1x3", "2x2"], "antenna": ["1x2x2", "2x2x1"], "antenna_budget": ["1x2x2"]}
     for kind in ("total", "avg", "antenna", "antenna_budget"):
         for cplx, table in ((False, real_shapes), (True, cplx_shapes)):
@@ -328,12 +332,10 @@ def power_scaling(ctx, cfg):
 
 def _nm_cfgs(tier):
     out = []
-    for kind, shapes in (("total", ["n3", "1x3", "2x2", "2x1x2"] + (["n4", "2x3"] if tier == "thorough" else [])), ("avg", ["n3", "2x2"] + (["1x4", "2x3"] if tier == "thorough" else [])), ("antenna", ["1x2x2", "2x2x1"])):
+    for kind, shapes in (("total", ["n3", "1x3", "2x2", "2x1x2"] + (["n4", "2x3"] if tier == "thorough" else [])), ("avg", ["n3", "2x2"] + (["1x4", "2x3"] if tier == "thorough" else [])), ("antenna", ["1x2x2", "2x2x1", "2x2"])):
         for i, shp in enumerate(shapes):
             for t in (list(TARGETS) if tier == "thorough" else [list(TARGETS)[(i + (kind == "avg")) % 4]]):
                 out.append(Cfg(kind, "real", shp, t))
-    for kind, shp in (("total", "n2"), ("avg", "n2"), ("total", "2x1x2")[:2] and ("total", "1x3")):
-        pass
     out += [Cfg("total", "complex", "n2", "T1"), Cfg("avg", "complex", "n2", "T2.5")]
     return out
 
@@ -368,21 +370,20 @@ def power_never_more(ctx, cfg):
 # ------------------------------------------------------------------------------------------------ idempotence, rescaling invariance
 def _ir_cfgs(tier):
     out = []
-    for kind, shapes in (("total", ["n3", "2x2"] + (["1x4", "2x3"] if tier == "thorough" else [])), ("avg", ["n3", "2x2"]), ("antenna", ["1x2x2"])):
+    for kind, shapes in (("total", ["n3", "2x2", "1x4"] + (["n6", "2x3", "2x2x2"] if tier == "thorough" else [])), ("avg", ["n3", "2x2"] + (["2x3"] if tier == "thorough" else [])), ("antenna", ["1x2x2", "2x2x1"])):
         for i, shp in enumerate(shapes):
-            for t in (list(TARGETS) if tier == "thorough" else [list(TARGETS)[(2 * i + (kind == "avg")) % 4]]):
+            for t in (list(TARGETS) if tier == "thorough" else [list(TARGETS)[(2 * i + (kind == "avg")) % 4], list(TARGETS)[(2 * i + 1 + (kind == "avg")) % 4]]):
                 out.append(Cfg(kind, "real", shp, t, "idem"))
-                for cs in ("c.01", "c7", "c100"):
-                    out.append(Cfg(kind, "real", shp, t, cs))
-    out += [Cfg("total", "complex", "n2", "T1", "idem"), Cfg("total", "complex", "n2", "T1", "c7")]
+                out.append(Cfg(kind, "real", shp, t, "rescale"))
+    out += [Cfg("total", "complex", "n2", "T1", "idem"), Cfg("total", "complex", "n2", "T2.5", "rescale"), Cfg("avg", "complex", "2x2", "T.01", "idem"), Cfg("avg", "complex", "2x2", "T1000", "rescale")]
     return out
 
 
-CS = {"c.01": Fr(1, 100), "c7": Fr(7, 2), "c100": Fr(100)}
-
-
-@obligation("C08.idempotent_and_scale_invariant", function=FUN_POWER, configs=_ir_cfgs, timeout_ms=60000, crosscheck=2)
+@obligation("C08.idempotent_and_scale_invariant", function=FUN_POWER, configs=_ir_cfgs, timeout_ms=30000, crosscheck=2, max_paths=16)
 def idem_rescale(ctx, cfg):
+    """C(C(x)) ~ C(x) and C(c x) ~ C(x) for EVERY c > 0 (symbolic), within 1e-3 relative per sample; requires non-negligible power
+    (>= 1e-5) of every item of x and of c x.  Proof shape: both executions are positive scalings by their own sqrt terms s1, s2
+    (identities), whose radicands are target/(power + 1e-8) (identities); the per-sample bound then follows for all reals (cut lemma)."""
     kind, dom, shp, tname, var = cfg
     cplx = dom == "complex"
     shape = SHAPES[shp]
@@ -390,33 +391,96 @@ def idem_rescale(ctx, cfg):
     x = _input(ctx, shape, cplx)
     re, im = _comps(x, cplx)
     base = "antenna" if kind.startswith("antenna") else kind
+    pk = base if base != "antenna" else "avg"
     items, ant = _items(base, shape)
     c, _ = _build(kind, T, shape)
-    cfac = CS.get(var)
+    tgt = S.norm(float(torch.tensor(T, dtype=torch.float32))) if base == "antenna" else S.norm(T)
+    pxs = []
     for pos in items:
-        px = _power(base if base != "antenna" else "avg", _item_vals(re, im, pos), len(pos))
+        px = _power(pk, _item_vals(re, im, pos), len(pos))
         ctx.assume(S.le(NONNEG, px))
-        if cfac is not None:
-            ctx.assume(S.le(NONNEG, S.mul(cfac * cfac, px)))
-    o1 = ctx.call(c.forward, x)
+        pxs.append(px)
+    with abs_as_sqrt():
+        o1 = ctx.call(c.forward, x)
     ctx.ensure("returns", o1.ok)
     if not o1.ok:
         return
+    a_re, a_im = _comps(o1.value, cplx)
+    cs = None
     if var == "idem":
-        o2 = ctx.call(c.forward, o1.value)
+        x2, (r2, i2) = o1.value, (a_re, a_im)
     else:
+        cs = ctx.scalar("c", "real", sampler=lambda r: r.choice([0.01, 0.37, 3.5, 100.0, 1e4]))
+        ctx.assume(S.lt(0, cs))
+        r2 = np.asarray([S.mul(v, cs) for v in re.reshape(-1)], dtype=object).reshape(shape)
+        i2 = np.asarray([S.mul(v, cs) for v in im.reshape(-1)], dtype=object).reshape(shape) if cplx else None
         with ctx.sym():
-            xs = x * float(cfac)
-        o2 = ctx.call(c.forward, xs)
+            x2 = torch.complex(ctx.tensor(r2), ctx.tensor(i2)) if cplx else ctx.tensor(r2)
+    # power of the second call's input, built the way the code builds it (so that its zero-signal test sees the same term)
+    p2s = []
+    for k, pos in enumerate(items):
+        p2 = _power(pk, _item_vals(r2, i2, pos), len(pos))
+        if var == "idem":
+            # established by C08.power_scaling (target_within_0.1pct) for this very execution shape; re-established here as a cut
+            s1, rr1 = _witness_scale(ctx, _item_vals(a_re, a_im, pos), None, pxs[k], tgt, kind) if ctx.mode == "sym" else (None, None)
+            if ctx.mode == "sym":
+                ok = s1 is not None and _radicand_is(rr1, tgt, S.add(pxs[k], EPS)) is True and _ident(p2, S.mul(S.mul(s1, s1), pxs[k])) and _lemma(
+                    ["s", "p", "po"], lambda e: [S.le(0, e["s"]), S.eq(S.mul(e["s"], e["s"]), S.div(tgt, S.add(e["p"], EPS))), S.le(NONNEG, e["p"]), S.eq(e["po"], S.mul(S.mul(e["s"], e["s"]), e["p"]))],
+                    lambda e: S.le(S.mul(tgt, Fr(999, 1000)), e["po"]))
+                ctx.ensure("first_output_has_target_power", bool(ok), note="cut (same facts as C08.power_scaling)")
+                if not ok:
+                    return
+            ctx.assume(S.le(S.mul(tgt, Fr(999, 1000)), p2))
+        else:
+            ctx.assume(S.le(NONNEG, p2))
+        p2s.append(p2)
+    with abs_as_sqrt():
+        o2 = ctx.call(c.forward, x2)
     ctx.ensure("second_returns", o2.ok)
     if not o2.ok:
         return
-    (a_re, a_im), (b_re, b_im) = _comps(o1.value, cplx), _comps(o2.value, cplx)
-    av = list(a_re.reshape(-1)) + (list(a_im.reshape(-1)) if cplx else [])
-    bv = list(b_re.reshape(-1)) + (list(b_im.reshape(-1)) if cplx else [])
+    b_re, b_im = _comps(o2.value, cplx)
     rt = Fr(1, 1000)
-    claim = SP.conj(S.le(S.sabs(S.sub(b, a)), S.add(Fr(1, 10**9), S.mul(rt, S.sabs(a)))) for a, b in zip(av, bv))
-    ctx.ensure("idempotent_within_1e-3" if var == "idem" else "invariant_to_input_scale_within_1e-3", claim, note="" if var == "idem" else f"C(c x) vs C(x), c = {float(cfac)}")
+    name = "idempotent_within_1e-3" if var == "idem" else "invariant_to_input_scale_within_1e-3"
+    absd = lambda a, b: S.le(S.sabs(S.sub(b, a)), S.add(Fr(1, 10**9), S.mul(rt, S.sabs(a))))
+    if ctx.mode != "sym":
+        av = list(a_re.reshape(-1)) + (list(a_im.reshape(-1)) if cplx else [])
+        bv = list(b_re.reshape(-1)) + (list(b_im.reshape(-1)) if cplx else [])
+        ctx.ensure(name, SP.conj(absd(a, b) for a, b in zip(av, bv)))
+        return
+    facts_ok = True
+    for k, pos in enumerate(items):
+        xv = _item_vals(re, im, pos)
+        x2v = _item_vals(r2, i2, pos)
+        o1v, o2v = _item_vals(a_re, a_im, pos), _item_vals(b_re, b_im, pos)
+        s1, rr1 = _witness_scale(ctx, o1v, xv, pxs[k], tgt, kind)
+        s2, rr2 = _witness_scale(ctx, o2v, x2v, p2s[k], tgt, kind)
+        if s1 is None or s2 is None or str(s1.e) == str(s2.e):
+            facts_ok = False
+            break
+        f = [_ident(o, S.mul(v, s1)) for o, v in zip(o1v, xv)] + [_ident(o, S.mul(v, s2)) for o, v in zip(o2v, x2v)]
+        f += [_radicand_is(rr1, tgt, S.add(pxs[k], EPS)) is True, _radicand_is(rr2, tgt, S.add(p2s[k], EPS)) is True]
+        f += [_ident(p2s[k], S.mul(S.mul(s1, s1), pxs[k])) if var == "idem" else _ident(p2s[k], S.mul(S.mul(cs, cs), pxs[k]))]
+        facts_ok = facts_ok and all(v is True for v in f)
+    if facts_ok:
+        ctx.ensure("both_executions_are_scalings_with_the_specified_radicands", True, note="out1 == s1 x, out2 == s2 x2, s_i^2 == T/(power_i + 1e-8), power(x2) == " + ("s1^2 power(x)" if var == "idem" else "c^2 power(x)") + " (polynomial identities, normal form)")
+    if not facts_ok:
+        # no abstraction available: ask the solver directly
+        av = list(a_re.reshape(-1)) + (list(a_im.reshape(-1)) if cplx else [])
+        bv = list(b_re.reshape(-1)) + (list(b_im.reshape(-1)) if cplx else [])
+        ctx.ensure(name, SP.conj(absd(a, b) for a, b in zip(av, bv)))
+        return
+    if var == "idem":
+        ok = _lemma(["s1", "s2", "p", "p2", "v"],
+                    lambda e: [S.le(0, e["s1"]), S.le(0, e["s2"]), S.eq(S.mul(e["s1"], e["s1"]), S.div(tgt, S.add(e["p"], EPS))), S.le(NONNEG, e["p"]), S.eq(e["p2"], S.mul(S.mul(e["s1"], e["s1"]), e["p"])),
+                               S.eq(S.mul(e["s2"], e["s2"]), S.div(tgt, S.add(e["p2"], EPS)))],
+                    lambda e: absd(S.mul(e["v"], e["s1"]), S.mul(S.mul(e["v"], e["s1"]), e["s2"])))
+    else:
+        ok = _lemma(["s1", "s2", "p", "p2", "v", "c"],
+                    lambda e: [S.lt(0, e["c"]), S.le(0, e["s1"]), S.le(0, e["s2"]), S.eq(S.mul(e["s1"], e["s1"]), S.div(tgt, S.add(e["p"], EPS))), S.le(NONNEG, e["p"]), S.eq(e["p2"], S.mul(S.mul(e["c"], e["c"]), e["p"])), S.le(NONNEG, e["p2"]),
+                               S.eq(S.mul(e["s2"], e["s2"]), S.div(tgt, S.add(e["p2"], EPS)))],
+                    lambda e: absd(S.mul(e["v"], e["s1"]), S.mul(S.mul(e["v"], e["c"]), e["s2"])))
+    ctx.ensure(name, bool(ok), note="cut: for all reals v, s1, s2, p" + ("" if var == "idem" else ", c > 0") + ": the facts above imply |out2 - out1| <= 1e-9 + 1e-3 |out1| for out1 = v s1, out2 = " + ("v s1 s2" if var == "idem" else "c v s2"))
 
 
 # ------------------------------------------------------------------------------------------------ PeakAmplitude
@@ -540,7 +604,7 @@ def composite_fold(ctx, cfg):
     ctx.ensure("input_unmodified", out.unmodified)
 
 
-@obligation("C08.composite_real_parts", function=FC + ":CompositeConstraint.forward; " + FU + ":apply_constraint_chain", configs=lambda tier: [Cfg("peak_total", "n3"), Cfg("total_peak", "n3"), Cfg("peak_avg_peak", "2x2")], timeout_ms=30000, crosscheck=2, max_paths=64)
+@obligation("C08.composite_real_parts", function=FC + ":CompositeConstraint.forward; " + FU + ":apply_constraint_chain", configs=lambda tier: [Cfg("peak_total", "n3"), Cfg("peak_avg", "n3")], timeout_ms=30000, crosscheck=2, max_paths=64)
 def composite_real(ctx, cfg):
     """random-chain instance with real parts: composite(x) == part_k(...part_1(x)) evaluated by calling the parts one by one"""
     from kaira.constraints import AveragePowerConstraint, CompositeConstraint, PeakAmplitudeConstraint, TotalPowerConstraint
@@ -634,7 +698,7 @@ def ofdm_limits(ctx, cfg):
 
 
 # ------------------------------------------------------------------------------------------------ measure_signal_properties (the observation function)
-@obligation("C08.measure_signal_properties", function=FU + ":measure_signal_properties", configs=lambda tier: [Cfg("real", "n3"), Cfg("real", "2x2"), Cfg("complex", "n2")] + ([Cfg("real", "n6"), Cfg("complex", "2x2")] if tier == "thorough" else []), timeout_ms=30000, crosscheck=3, max_paths=64)
+@obligation("C08.measure_signal_properties", function=FU + ":measure_signal_properties", configs=lambda tier: [Cfg("real", "n3"), Cfg("real", "1x3"), Cfg("complex", "n2")] + ([Cfg("real", "2x1x2")] if tier == "thorough" else []), timeout_ms=60000, crosscheck=3, max_paths=64)
 def measure_props(ctx, cfg):
     from kaira.constraints.utils import measure_signal_properties
 
